@@ -15,6 +15,9 @@ package main
 //
 //	i = InstantiationAware processor, s = SmartInstantiationAware processor (implements GetEarlyBeanReference)
 //
+//	marker z (processors only) = the processor is LazyInit (embeds definition.LazyInitComponent): the registration loop of
+//	InvokeBeanFactoryPostProcessors appends it AS REGISTERED, at its sorted position, instead of asking the factory for it
+//
 //	p = Priority()+Order(), o = Order() only, n = neither, q = Priority() without Order() (must land in the plain block)
 //
 // Observations never show the order inside a (class,key) tie group (sort.Slice is unstable).
@@ -71,6 +74,9 @@ func (t ordTok) rank() int {
 }
 
 func (t ordTok) has(m byte) bool { return strings.IndexByte(t.marks, m) >= 0 }
+
+// lazy: a LazyInit post-processor (marker z)
+func (t ordTok) lazy() bool { return t.has('z') }
 
 func (t ordTok) String() string {
 	s := ""
@@ -569,7 +575,93 @@ type ipQ struct {
 	definition.PriorityComponent
 }
 
+// LazyInit variants of the twelve processor types (definition.LazyInitComponent embedded next to the eager type: the
+// post-processor interfaces, Naming, Order and Priority are promoted, LazyInit() is added)
+type lzppP struct {
+	ppP
+	definition.LazyInitComponent
+}
+type lzppO struct {
+	ppO
+	definition.LazyInitComponent
+}
+type lzppN struct {
+	ppN
+	definition.LazyInitComponent
+}
+type lzppQ struct {
+	ppQ
+	definition.LazyInitComponent
+}
+type lzipP struct {
+	ipP
+	definition.LazyInitComponent
+}
+type lzipO struct {
+	ipO
+	definition.LazyInitComponent
+}
+type lzipN struct {
+	ipN
+	definition.LazyInitComponent
+}
+type lzipQ struct {
+	ipQ
+	definition.LazyInitComponent
+}
+type lzspP struct {
+	spP
+	definition.LazyInitComponent
+}
+type lzspO struct {
+	spO
+	definition.LazyInitComponent
+}
+type lzspN struct {
+	spN
+	definition.LazyInitComponent
+}
+type lzspQ struct {
+	spQ
+	definition.LazyInitComponent
+}
+
+// mkProc: the processor object of a token; with marker z its LazyInit variant
 func mkProc(b sBase) any {
+	p := mkEagerProc(b)
+	if !b.tok.lazy() {
+		return p
+	}
+	switch x := p.(type) {
+	case *ppP:
+		return &lzppP{ppP: *x}
+	case *ppO:
+		return &lzppO{ppO: *x}
+	case *ppN:
+		return &lzppN{ppN: *x}
+	case *ppQ:
+		return &lzppQ{ppQ: *x}
+	case *ipP:
+		return &lzipP{ipP: *x}
+	case *ipO:
+		return &lzipO{ipO: *x}
+	case *ipN:
+		return &lzipN{ipN: *x}
+	case *ipQ:
+		return &lzipQ{ipQ: *x}
+	case *spP:
+		return &lzspP{spP: *x}
+	case *spO:
+		return &lzspO{spO: *x}
+	case *spN:
+		return &lzspN{spN: *x}
+	case *spQ:
+		return &lzspQ{spQ: *x}
+	}
+	return p
+}
+
+func mkEagerProc(b sBase) any {
 	k := kOrder{b.tok.key}
 	if b.tok.smart {
 		sb := spBase{ipBase{sBase: b}}
@@ -1057,6 +1149,10 @@ func genStartList(r *hx.Rng, maxLen int, role byte, stopProb int) []ordTok {
 		wts = [4]int{2, 2, 1, 1}
 	}
 	mode := r.Intn(4)
+	lazyNum := 0 // processors: LazyInit ones in 2/3 of the lists (each processor with probability 1/3 or 1/2)
+	if role == 'P' {
+		lazyNum = []int{0, 2, 3}[r.Intn(3)]
+	}
 	ts := make([]ordTok, ln)
 	for j := range ts {
 		ts[j] = ordTok{cls: genClass(r, wts), id: j}
@@ -1065,6 +1161,9 @@ func genStartList(r *hx.Rng, maxLen int, role byte, stopProb int) []ordTok {
 		}
 		if role == 'P' {
 			ts[j].inst = r.P(1, 3)
+			if lazyNum > 0 && r.P(lazyNum, 6) {
+				ts[j].marks = "z"
+			}
 		}
 		if role == 'L' && r.P(1, 3) {
 			ts[j].marks = "+"
@@ -1115,7 +1214,28 @@ func startTags(ls, ps, rs []ordTok) []string {
 	if len(ls) > 12 || len(ps) > 12 || len(rs) > 12 {
 		tags = append(tags, "some-list>12")
 	}
+	if anyMark(ps, "z") {
+		tags = append(tags, "lazy-processor")
+		if lazyAheadOfEager(ps) {
+			tags = append(tags, "lazy-ahead-of-eager")
+		}
+	}
 	return tags
+}
+
+// lazyAheadOfEager: some LazyInit processor must, by the contract, be invoked strictly before some eager one
+func lazyAheadOfEager(ps []ordTok) bool {
+	for _, a := range ps {
+		if !a.lazy() {
+			continue
+		}
+		for _, b := range ps {
+			if !b.lazy() && (a.rank() < b.rank() || (a.rank() == b.rank() && a.rank() < 2 && a.key < b.key)) {
+				return true
+			}
+		}
+	}
+	return false
 }
 
 // contractSorted: does the sequence already satisfy the contract (classes in order, keys non-decreasing in the first two)?
@@ -1310,6 +1430,12 @@ func orderStartCorpus(w *hx.Writer) {
 		"L P p3 o1^ o2 n R o1 p5",
 		"L P p3 o1~ io2 n R o1 p5! n",
 		"L P R p-9223372036854775808 p9223372036854775807 o-1! o-2 n",
+		// LazyInit processors (z) of all three classes among eager ones: the chain is the sorted sequence all the same
+		"L P p1000 o300 n p500z o-7z nz R",
+		"L P nz n o5z o9 R",
+		"L P n qz o3 ip2z io1z o2 p7 sp-1z in iqz R n",
+		"L o2+ P o1z o2 o3z^ o4 R p1",
+		"L P p3z p3 p4 p2z o0z? o1 n R n",
 		// early references: smart processors registered against the contract order (classes, Orders, extremes, ties)
 		"SC L P R",
 		"SC L P sn so5 sp70 R",
@@ -1319,6 +1445,8 @@ func orderStartCorpus(w *hx.Writer) {
 		"SC L n! P sn so5 sp70 R n",
 		"SC L P so2 sp1^ sn R n",
 		"SC L P in so5 n R",
+		"SC L P sn so5 sp70z so1z sp80 snz R",
+		"SC L P snz so9z sp3z R n",
 		// one Configure, several Initialize calls
 		"Q I",
 		"Q S n o5 p9 / I / S n o7 p3 / I",
